@@ -9,7 +9,7 @@ pub fn def() -> PropDef {
         builds: BOTH,
         rule: "every text over {SP,TAB,L,NL,CRLF,NBSP,L,SHY (non-whitespace sharing NBSP's UTF-8 lead byte)} up to length N x prefixes {\"\",\"  \",\"# \",\">\",TAB,\" x \"}; non-trivial = a text with >= 2 lines of which one is whitespace-only or empty, under a non-empty prefix",
         assumptions: BASE_ASSUMPTIONS,
-        floor: |t| t.pick(10_000, 500_000),
+        floor: |t| t.pick(10_000, 30_000),
         run,
     }
 }
